@@ -140,6 +140,12 @@ def NoFaultOps (ops : List Op) : Prop := ∀ a, Op.add a ∈ ops → a.faults = 
 /-- every descriptor of the state is fault-free (getF form) -/
 def FaultFree (s : State) : Prop := ∀ k g, getF s.objs k = some g → g.faults = []
 
+/-- input domain of the fault schedule (enforced by the driver and the engine, `bad-op`): a first-read failure
+    (code ≥ 1) is only given to a non-empty object - an empty object's lone packet needs no data, so the real attempt
+    succeeds where the model's would fail.  The ∀-history theorems do not assume it (they are statements about the
+    model); it delimits where the model is compared with the code (`every_start_has_stop` for faulty sources). -/
+def FaultDomain (a : AddArgs) : Prop := a.nSym = 0 → ∀ c ∈ a.faults, c = 0
+
 theorem faultfree_step (s : State) (op : Op) (hq : s.quiet = false) (h : FaultFree s)
     (hop : ∀ a, op = .add a → a.faults = []) : FaultFree (step s op) := by
   cases op with
